@@ -22,7 +22,7 @@ TYPES = {
     "optint": (typing.Optional[int], [5, None], ["5", "null"], ["x", [1, 2]]),
 }
 DEFAULTS = {"int": [7, 0], "str": ["d", ""], "listint": [[9], []], "optint": [None, 3], "dictint": [{}], "unionil": [1], "tuple2": [(0, "z")],
-            "andpos": [1], "nested": [None], "posint": [2], "xorpos": [12], "noteven": [3]}
+            "andpos": [1], "nested": [None], "posint": [2], "xorpos": [12], "noteven": [3], "typeint": [int], "listtype": [[int]]}
 _EXT = {}
 
 
@@ -52,6 +52,9 @@ def ext_types():
         "xorpos": (LogicalType.one_of(Pos, Small), [12, -4], ["20"], [4, 0, 7]),     # >=0 ^ <=10: both accept 0..10
         "noteven": (LogicalType.not_of(Even), [3, -1], [], [4, 0, "6"]),
         "nested": (typing.Optional[Inner], [None, {"p": 1}], [{"p": "1", "q": "2"}], [{"q": 1}, {"p": "x", "q": "y"}, 5]),
+        # class-valued: a subclass check whose failure is recorded on the context
+        "typeint": (typing.Type[int], [int, bool], [], [str, dict, float]),
+        "listtype": (typing.List[typing.Type[int]], [[int], [bool, int], []], [], [[str], [int, dict], [float, str]]),
     })
     return _EXT
 
